@@ -73,6 +73,12 @@ type layout struct {
 	ln, cp, esz  int
 	group, delta int // allocation group (arbitrary id, -1: no storage) and offset in elements
 	spare        int
+	// ident is the identity of the real mutable object behind the value (the
+	// cell holder of a vector, the byte-slice box of a byte string, the Go map
+	// of a sorted-map, the header of a list): two model objects that are ONE
+	// real object get the same number, so a history in which a "fresh" result
+	// is really its argument is never merged with an honest one.
+	ident uintptr
 }
 
 type world struct {
@@ -305,6 +311,7 @@ func (w *world) serialize(order []int, lay map[int]layout) string {
 	objNum := map[int]int{}
 	backNum := map[int]int{}
 	grpNum := map[int]int{}
+	idNum := map[uintptr]int{}
 	var visit func(v val)
 	visit = func(v val) {
 		switch v.t {
@@ -339,6 +346,14 @@ func (w *world) serialize(order []int, lay map[int]layout) string {
 						sb.WriteString("~G" + strconv.Itoa(g) + "@" + strconv.Itoa(l.delta))
 					}
 					sb.WriteString("+" + strconv.Itoa(l.spare))
+					if l.ident != 0 {
+						n, seen := idNum[l.ident]
+						if !seen {
+							n = len(idNum)
+							idNum[l.ident] = n
+						}
+						sb.WriteString("#I" + strconv.Itoa(n))
+					}
 				}
 			}
 			if o.k == kMap {
